@@ -22,6 +22,8 @@ type CfgRun struct {
 	Trace   []m.Ev
 	Compile []m.Ev // custom-operator calls made during Compile
 	NilCtx  []bool
+	Log     *Log // the log the program's custom operators write to (state of stateful operators lives here)
+	Fast    bool
 
 	RefVal   interface{}
 	RefErr   error
@@ -38,7 +40,7 @@ func runCfg(pid string, u *Universe, src string, b Build) (*CfgRun, *Violation) 
 	if co.Panic != nil || co.Err != nil || e == nil {
 		return nil, Violf("%s: well-formed expression does not compile under %s\nsrc=%s\noutcome=%v", pid, maskName(b.Mask), src, co)
 	}
-	run := &CfgRun{Mask: b.Mask, Expr: e, Cfg: cc, Compile: append([]m.Ev(nil), log.Ev...), NilCtx: append([]bool(nil), log.NilCtx...)}
+	run := &CfgRun{Mask: b.Mask, Expr: e, Cfg: cc, Compile: append([]m.Ev(nil), log.Ev...), NilCtx: append([]bool(nil), log.NilCtx...), Log: log, Fast: b.Mask&MaskFast != 0}
 	var o Outcome
 	run.Dump, o = SafeStr(func() string { return eval.Dump(e) })
 	if o.Panic != nil {
@@ -89,3 +91,27 @@ func (r *CfgRun) checkAgainstOwnDump(pid, src string, u *Universe) (skip bool, v
 	}
 	return false, nil
 }
+
+// Again evaluates the same compiled program once more and runs the reference on its dump
+// with the operators' state threaded through; it returns a violation if the effects or the
+// result of the repeated evaluation differ from the reference.
+func (r *CfgRun) Again(pid, src string, u *Universe, nth int) *Violation {
+	calls := r.Log.Calls()
+	r.Log.Reset()
+	f := NewFetcher(u, r.Cfg, r.Log)
+	o := Safe(func() (eval.Value, error) { return r.Expr.Eval(f.Ctx()) })
+	trace := append([]m.Ev(nil), r.Log.Ev...)
+	ref := &m.Env{Vars: u.Bound(), Fail: u.Fail(), Custom: customModel(), Calls: calls, Fast: r.Fast}
+	rv, rerr := ref.Eval(r.DTree)
+	if o.Panic != nil {
+		return Violf("%s: evaluation %d of the same program panics\n%s\n%v", pid, nth, r.describe(src, u), o)
+	}
+	if !MatchTrace(trace, ref.Trace) {
+		return Violf("%s: evaluation %d of the same compiled program does not perform the fetches / operator calls of the dumped program\n%s\nengine   =%v\nreference=%v", pid, nth, r.describe(src, u), m.TraceStrings(trace), m.TraceStrings(ref.Trace))
+	}
+	if rerr != m.ErrOptionalFetch && !Agrees(o, rv, rerr) {
+		return Violf("%s: evaluation %d of the same compiled program returns %v, the reference gives %s\n%s", pid, nth, o, refString(rv, rerr), r.describe(src, u))
+	}
+	return nil
+}
+
